@@ -16,10 +16,34 @@ use crate::trace::{Ev, FinishRes, Payload};
 /// Payload of every panic the simulator injects.
 pub struct SimPanic(pub u32);
 
+/// The leaf for id `n`. Most are `Error::custom("F<n>")`; some ids are other kinds of error (an
+/// accumulator records errors whatever their kind), all carrying the id so that every leaf stays
+/// attributable.
+pub fn leaf(id: u32) -> Error {
+    let name = format!("F{}", id);
+    match id % 7 {
+        0 => Error::missing_field(&name),
+        3 => Error::unknown_field(&name),
+        5 => match (id / 7) % 4 {
+            0 => Error::duplicate_field(&name),
+            1 => Error::unknown_value(&name),
+            2 => Error::unsupported_shape(&name),
+            _ => Error::unexpected_type(&name),
+        },
+        _ => Error::custom(name),
+    }
+}
+
+/// Display of that leaf when it has no location: darling's wording for the kind, read from darling so
+/// that a reworded message is not a difference.
+pub fn leaf_text(id: u32) -> String {
+    leaf(id).to_string()
+}
+
 pub fn build(e: &ErrSpec) -> Error {
     match e {
-        ErrSpec::Single(id) => Error::custom(format!("F{}", id)),
-        ErrSpec::Located(id, seg) => Error::custom(format!("F{}", id)).at(seg),
+        ErrSpec::Single(id) => leaf(*id),
+        ErrSpec::Located(id, seg) => leaf(*id).at(seg),
         ErrSpec::Bundle(children, at) => {
             let b = Error::multiple(children.iter().map(build).collect());
             match at {
